@@ -119,7 +119,7 @@ std::string snapshot() {
     }
     bool known;
     bool looping = ctx_is_looping_probe(&known);
-    snprintf(b, sizeof b, "|ctx:%ld:%d:%d|fd:%zu:%zu|ep:", (long)m_ctx_len(), known, looping, R->k.open_count(sim::OWN_LIB), R->k.open_count(sim::OWN_USER));
+    snprintf(b, sizeof b, "|ctx:%ld:%d:%d|fd:%zu|ep:", (long)m_ctx_len(), known, looping, R->k.open_count(sim::OWN_LIB));   // (user descriptors come and go with the environment)
     s += b;
     size_t regs = 0, bytes = 0;
     for (auto &e : R->k.fds) {
@@ -128,7 +128,8 @@ std::string snapshot() {
         if (e.file->kind == sim::F_EPOLL) regs += e.file->regs.size();
         if (e.file->kind == sim::F_PIPE_R) bytes += e.file->pipe->buf.size();
     }
-    snprintf(b, sizeof b, "%zu|pipe:%zu|alloc:%zu", regs, bytes, R->a.outstanding());
+    // (a task thread running in the background allocates/frees on its own schedule)
+    snprintf(b, sizeof b, "%zu|pipe:%zu|alloc:%zu", regs, bytes, sim::all_others_done() ? R->a.outstanding() : (size_t)0);
     s += b;
     return s;
 }
@@ -802,6 +803,7 @@ void exec_op(const Op &op, bool in_cb, int cb_slot) {
             if (re_valid) regfree(&tmp);
             unsigned pr = fl & (M_SRC_PRIO_LOW | M_SRC_PRIO_NORM | M_SRC_PRIO_HIGH);
             c09_register(m, M_SRC_TYPE_PS, (long)(sim::hash_str(topic) & 0x7fffffffffffLL), 0, re_valid && __builtin_popcount(pr) <= 1, rc, true, a.snap0);
+            if (rc != 0 && (fl & M_SRC_AUTOFREE) && R->a.is_live(ud)) sk_free((void *)ud);
         }
         if (rc == 0) {
             auto it = s.subs.find(topic);
@@ -828,8 +830,6 @@ void exec_op(const Op &op, bool in_cb, int cb_slot) {
             sm.topic_ptr = topic;
             sm.re_ok = regcomp(&sm.re, topic, REG_NOSUB) == 0;
             s.subs[topic] = sm;
-        } else if (fl & M_SRC_AUTOFREE) {
-            if (R->a.is_live(ud)) sk_free((void *)ud);
         }
         return;
     }
@@ -867,12 +867,13 @@ void exec_op(const Op &op, bool in_cb, int cb_slot) {
                 x.oneshot = (fl & M_SRC_ONESHOT) || type == M_SRC_TYPE_TASK || type == M_SRC_TYPE_THRESH;
                 if (fill) fill(x);
                 s.srcs.push_back(x);
-            } else if (fl & M_SRC_AUTOFREE) {
-                // who releases the user data of a refused registration is unspecified: the library does when it got as far as creating the source
+            }
+            c09_register(m, type, k1, type == M_SRC_TYPE_TASK ? 0 : k2, valid, rc, false, a.snap0);
+            if (rc != 0 && (fl & M_SRC_AUTOFREE)) {
+                // refused: the user data stays ours (the library no longer touches it)
                 if (R->a.is_live(ud)) sk_free((void *)ud);
                 W->udptr2id.erase(ud);
             }
-            c09_register(m, type, k1, type == M_SRC_TYPE_TASK ? 0 : k2, valid, rc, false, a.snap0);
             return rc;
         };
         auto do_deregister = [&](const char *name, int type, long k1, long k2, std::function<int()> call) {
@@ -885,6 +886,11 @@ void exec_op(const Op &op, bool in_cb, int cb_slot) {
         if (n == "src_fd" || n == "unsrc_fd") {
             if (W->ufds.empty()) return;
             int k = (int)(((op.arg(1) % (long)W->ufds.size()) + W->ufds.size()) % W->ufds.size());
+            if (W->prog.get("fdpermod", 0)) {
+                // avoid(known finding C09: one descriptor cannot be polled for two modules of a context): private descriptors per module
+                k = m * 3 + (int)(((op.arg(1) % 3) + 3) % 3);
+                while ((int)W->ufds.size() <= k) make_ufd((int)W->ufds.size());
+            }
             if (!R->k.is_open(W->ufds[k].first) || R->k.fds[W->ufds[k].first].owner != sim::OWN_USER) {   // previous descriptor was auto-closed: use a fresh one
                 if (W->ufds[k].second >= 0 && R->k.is_open(W->ufds[k].second) && R->k.fds[W->ufds[k].second].owner == sim::OWN_USER) R->k.k_close(W->ufds[k].second, sim::OWN_USER);
                 make_ufd(k);
